@@ -10,7 +10,7 @@ package staking
 //@ func (*SlashData).DecodeRLP props C14
 //@ panics none
 //@ requires l != nil && s != nil
-//@ modifies all, c14Consumed, c14K, c14Sz, c14P
+//@ modifies all, c14Consumed, c14K, c14Sz, c14P, c14E
 //@ assert before return#1: [Type] l.Type == msg.Type
 //@ assert before return#1: [MainAddress] l.MainAddress == msg.MainAddress
 //@ assert before return#1: [Total] l.Total == msg.PenaltyAmount
@@ -25,7 +25,7 @@ package staking
 
 //@ func (*EvidenceDoubleSign).DecodeRLP props C14
 //@ requires e != nil && c != nil
-//@ modifies all, c14Consumed, c14K, c14Sz, c14P
+//@ modifies all, c14Consumed, c14K, c14Sz, c14P, c14E
 //@ assert before return#1: [Round] e.Round == data.Round
 //@ assert before return#1: [RoundIndex] e.RoundIndex == data.RoundIndex
 //@ assert before return#1: [Signs-fresh] e.Signs != nil
